@@ -33,9 +33,15 @@ MusWhy(e) ==
   ELSE IF e.res.nb # Len(e.res.clauses) THEN "mus-nbclauses"
   ELSE IF ~SubOfInput(e.res.clauses) THEN "mus-not-subset"
   ELSE IF \E i \in 1..Len(e.res.clauses) : MaxVar(e.res.clauses[i]) > N THEN "mus-not-subset"
-  ELSE IF ~UnsatCl(N, e.res.clauses) THEN "mus-satisfiable"
-  ELSE IF \E k \in 1..Len(e.res.clauses) : UnsatCl(N, Without(e.res.clauses, k)) THEN "mus-not-minimal"
-  ELSE ""
+  ELSE IF N <= 8 THEN
+       (IF ~UnsatCl(N, e.res.clauses) THEN "mus-satisfiable"
+        ELSE IF \E k \in 1..Len(e.res.clauses) : UnsatCl(N, Without(e.res.clauses, k)) THEN "mus-not-minimal"
+        ELSE "")
+  ELSE (* larger cases: one pass over the assignments (Logic!FalsSets, lemma checked in MUS.tla) *)
+       LET W == FalsSets(N, e.res.clauses) IN
+       IF ~UnsatW(W) THEN "mus-satisfiable"
+       ELSE IF ~MinimalW(W, Len(e.res.clauses)) THEN "mus-not-minimal"
+       ELSE ""
 
 (* ---- C08 ---------------------------------------------------------------- *)
 F0 == {Range(F[i]) : i \in 1..Len(F)}
